@@ -21,6 +21,10 @@ type tcase struct {
 	A    int64  `json:"a"`
 	B    int64  `json:"b"`
 	Mode string `json:"mode"` // direct | source
+	// source mode: another spelling of the operand with the same int64 value (a boolean, the result of an
+	// earlier operation, an instance of an Int descendant, a conversion)
+	SA string `json:"sa,omitempty"`
+	SB string `json:"sb,omitempty"`
 }
 
 var binOps = []string{"+", "-", "*", "//", "%", "**", "/", "<=>"}
@@ -202,6 +206,19 @@ func lit(v int64) string {
 }
 
 func srcOf(t tcase) string {
+	if t.SA != "" || t.SB != "" {
+		a, b := lit(t.A), lit(t.B)
+		if t.SA != "" {
+			a = t.SA
+		}
+		if t.SB != "" {
+			b = t.SB
+		}
+		if t.Op == "neg" {
+			return "x := " + a + "; -x"
+		}
+		return fmt.Sprintf("x := %s; y := %s; x %s y", a, b, t.Op)
+	}
 	if t.Op == "neg" {
 		if t.A == math.MinInt64 {
 			return "x := " + lit(t.A) + "; -x"
@@ -338,6 +355,34 @@ func run(c *core.Ctx) {
 		}
 		for b := int64(0); b <= 5; b++ {
 			e.checkDirect("**", a, b)
+		}
+	}
+	// --- operands that are ints by value but were not written as int literals
+	spell := map[int64][]string{
+		0:             {"(true - 1)", "(false * 5)", "(-false)", "false", "(3 - 3)", "Int.bear.new(0)", "(Int.bear.new(4) - Int.bear.new(4))", `"0".I`, "[].len", "(0 * -1)"},
+		1:             {"true", "Int.bear.new(1)", "(true * 1)", "[5].len"},
+		7:             {"Int.bear.new(7)", "(true * 7)", `"7".I`},
+		-3:            {"Int.bear.new(-3)", "(true * -3)", `"-3".I`},
+		math.MaxInt64: {"Int.bear.new(9223372036854775807)", "(true * 9223372036854775807)"},
+		math.MinInt64: {"(false - 9223372036854775807 - 1)", "Int.bear.new(-9223372036854775807 - 1)"},
+	}
+	plain := []int64{math.MinInt64, -7, -1, 0, 1, 6, math.MaxInt64}
+	k = 0
+	for _, v := range []int64{0, 1, 7, -3, math.MaxInt64, math.MinInt64} {
+		for _, sp := range spell[v] {
+			k++
+			if !c.Mine(k) {
+				continue
+			}
+			for _, op := range ops {
+				for _, p := range plain {
+					srcCases = append(srcCases, tcase{Op: op, A: p, B: v, SB: sp, Mode: "source"}, tcase{Op: op, A: v, B: p, SA: sp, Mode: "source"})
+				}
+				for _, sp2 := range spell[v] {
+					srcCases = append(srcCases, tcase{Op: op, A: v, B: v, SA: sp, SB: sp2, Mode: "source"})
+				}
+			}
+			srcCases = append(srcCases, tcase{Op: "neg", A: v, SA: sp, Mode: "source"})
 		}
 	}
 	// --- history: a descendant of Int that redefines every operator is used BEFORE and AFTER the plain ints of the
